@@ -3,16 +3,18 @@
 (* generators of the fn/ group (MC_Matchers, MC_Fileset, MC_Grammar ...).  *)
 (* TLC's RandomElement is not reproducible in model-checking mode, so the  *)
 (* choice is a function of VERIF_SEED (environment) and the coordinates of *)
-(* the draw.  All arithmetic stays far below 2^31.                         *)
+(* the draw.  All arithmetic stays below 2^31.                         *)
 EXTENDS Naturals, Sequences, IOUtils
 
 Seed == IF "VERIF_SEED" \in DOMAIN IOEnv THEN atoi(IOEnv.VERIF_SEED) % 10007 ELSE 0
 
-Lcg(x) == (x * 75 + 74) % 65537
-(* the n-th draw (n >= 1) for coordinates (a, b): a number in 0..65536 *)
+RndP == 46337                       \* prime; RndP * RndP < 2^31
+Mix(x) == (((x * x) % RndP) * 7 + x * 13 + 5) % RndP      \* non-linear: successive ids decorrelate
+(* the n-th draw (n >= 1) for coordinates (a, b): a number in 0..RndP-1 *)
 Draw(a, b, n) ==
-  LET x0 == (Seed * 3 + (a % 20011) * 31 + (b % 1009) * 977 + n * 4099) % 65537
-  IN Lcg(Lcg(Lcg(x0) + n) % 65537)
+  LET x0 == (Seed * 7 + (a % 20011) * 131 + (b % 1009) * 977 + n * 4099) % RndP
+      x1 == (Mix(x0) + n * 1009 + (a % 97) * 389) % RndP
+  IN Mix((Mix(x1) + (b % 101) * 211) % RndP)
 (* a pseudo-random element of the non-empty sequence s *)
 Pick(s, a, b, n) == s[(Draw(a, b, n) % Len(s)) + 1]
 =============================================================================
